@@ -57,6 +57,8 @@ PROP = [  # (subject fragment, property)
  ("must leave the I/O pointer of a field open for writing where it was", "C17"), ("SIE write beyond the end must pad the gap", "C03"), ("must not empty the data file when one frame exceeds", "C13"),
  ("parent/alias code must test the /PROTECT level", "C11"), ("format-protected sub-fragment of the removed fragment", "C11"),
  ("must not rewrite a client that lives in a format-protected", "C11"),
+ ("listed with falling abscissae must be sorted", "C01"), ("LINTERP with falling y must invert the table", "C03"),
+ ("write the padding zeros of a write-mode seek in _GD_GzipSeek", "C02"),
  ("inserting a parsed subfield must invalidate", "C15"), ("only the first RAW field of a fragment", "C18"),
  ("_GD_Flush must stop at the first error", "C05"), ("SetPrefix and SetSuffix must keep the cached affixes", "C20"),
  ("failing BZ2_bzRead must invalidate", "C02"), ("LINCOM with real scalars read as a complex type", "C01"), ("gd_add must record the sample size", "C03"),
